@@ -294,11 +294,11 @@ def rangeBody : Stmt → List Stmt
 def csKuBody : List Stmt := rangeBody (x509_validateCodeSigningKeyUsagePresent.body.getD 1 (.opaque ""))
 
 theorem csKuLoop (fn : String) (cal) (cv : Val) : ∀ (exts : List (Int × Bool)) (i : Nat),
-    rangeLoop (fun st => execBlock ⟨fn, prims sig sigSelf, cal⟩ st csKuBody) "_" "ext" i (exts.map extV)
-        [[("hasKeyUsageExtension", .bool false), ("cert", cv)]]
+    rangeLoop (fun st => execBlock ⟨fn, prims sig sigSelf, cal⟩ st csKuBody) "_" "v2" i (exts.map extV)
+        [[("v1", .bool false), ("v0", cv)]]
       = match findExt oidKeyUsage exts with
-        | none => .next [[("hasKeyUsageExtension", .bool false), ("cert", cv)]]
-        | some true => .next [[("hasKeyUsageExtension", .bool true), ("cert", cv)]]
+        | none => .next [[("v1", .bool false), ("v0", cv)]]
+        | some true => .next [[("v1", .bool true), ("v0", cv)]]
         | some false => .ret [.err fn 0 []] := by
   intro exts
   induction exts with
@@ -307,10 +307,10 @@ theorem csKuLoop (fn : String) (cal) (cv : Val) : ∀ (exts : List (Int × Bool)
     intro i
     obtain ⟨o, cr⟩ := e
     have step : (fun st => execBlock ⟨fn, prims sig sigSelf, cal⟩ st csKuBody)
-          [[("ext", extV (o, cr))], [("hasKeyUsageExtension", .bool false), ("cert", cv)]]
-        = if o = 15 then (if cr then .brk [[("ext", extV (o, cr))], [("hasKeyUsageExtension", .bool true), ("cert", cv)]]
+          [[("v2", extV (o, cr))], [("v1", .bool false), ("v0", cv)]]
+        = if o = 15 then (if cr then .brk [[("v2", extV (o, cr))], [("v1", .bool true), ("v0", cv)]]
                           else .ret [.err fn 0 []])
-          else .next [[("ext", extV (o, cr))], [("hasKeyUsageExtension", .bool false), ("cert", cv)]] := by
+          else .next [[("v2", extV (o, cr))], [("v1", .bool false), ("v0", cv)]] := by
       by_cases ho : o = 15 <;> cases cr <;>
         simp [csKuBody, rangeBody, x509_validateCodeSigningKeyUsagePresent, extV, field,
           execBlock, exec, eval, evalArgs, sbindAll, sbind, sdefine, sassign, fset, sget, fget,
